@@ -156,6 +156,8 @@ pub enum BOp {
     Id,
     ExtInst,
     ExtInstExplicit(u32),
+    /// set_version(1, 4): creates the header if there is none (its bound is fixed up by module())
+    SetVersion,
     IAddExplicit(u32),
     BeginBlockId(u32),
     /// generated type method `site` (index into type_calls), explicit id or not, argument variation
@@ -336,6 +338,10 @@ pub fn replay(h: &[BOp]) -> Replay {
                     ret_id = Some(b.id());
                     ok = true
                 }
+                BOp::SetVersion => {
+                    b.set_version(1, 4);
+                    ok = true
+                }
                 BOp::ExtInst => ok = res_word!(b.ext_inst(RT, None, 9, 1, vec![dr::Operand::IdRef(6)])),
                 BOp::ExtInstExplicit(id) => {
                     explicit = true;
@@ -501,6 +507,11 @@ pub fn replay(h: &[BOp]) -> Replay {
                 }
                 BOp::ConstantBit32 => Pred::Ok { snap: append_global(&cur, inst("Constant", Some(RT), ret_id, vec![Arg::Lit32(42)])), sel, fresh: ret_id },
                 BOp::Id => Pred::Ok { snap: cur.clone(), sel, fresh: ret_id },
+                BOp::SetVersion => {
+                    let mut n = cur.clone();
+                    n.version = Some(0x0001_0400);
+                    Pred::Ok { snap: n, sel, fresh: None }
+                }
                 BOp::TypeVoid | BOp::TypeCall(..) | BOp::TypePointer(..) => {
                     let want = expected_inst.clone().unwrap_or_else(|| inst("TypeVoid", None, ret_id, vec![]));
                     let equal_earlier: Vec<u32> = cur.secs[10].iter().filter(|d| d.rid.is_some() && d.opcode == want.opcode && d.args == want.args).map(|d| d.rid.unwrap()).collect();
